@@ -180,6 +180,11 @@ fn has_negative(t: &Term) -> bool { match t { Term::Int(i) => *i < 0, Term::Floa
 fn has_float(t: &Term) -> bool { match t { Term::Float(_) => true, Term::Cmp(_, a) | Term::Func(_, a) => a.iter().any(has_float), Term::List(es, _) => es.iter().any(has_float), _ => false } }
 fn has_tail(t: &Term) -> bool { match t { Term::List(es, tl) => tl.is_some() || es.iter().any(has_tail), Term::Cmp(_, a) | Term::Func(_, a) => a.iter().any(has_tail), _ => false } }
 
+/// The parsers reject complex terms, goals and rules longer than 1000 bytes ("String is too long" - documented in
+/// validate_complex). Generated text stays well below, so that no variant or context of it crosses the limit.
+const TEXT_LIMIT: usize = 800;
+const TOO_LONG: &str = "text longer than the parsers' documented 1000-byte limit";
+
 type PR<T> = Result<Result<T, String>, EngineFail>;
 
 fn parse_guard<T>(f: impl FnOnce() -> Result<T, String>) -> PR<T> { guarded(u64::MAX, f) }
@@ -189,6 +194,7 @@ fn parse_guard<T>(f: impl FnOnce() -> Result<T, String>) -> PR<T> { guarded(u64:
 impl ParserProp {
     fn roundtrip_term(&self, t: &Term, rep: &mut Report) -> CaseResult {
         let c = render::term(t, &CANON);
+        if c.len() > TEXT_LIMIT { return CaseResult::Discard(TOO_LONG.into()); }
         let want = to_engine(t, &Ids::Zero);
         let variants: Vec<(String, &str)> = vec![(c.clone(), "canonical"), (render::term(t, &Style { tight_commas: true, ..CANON }), "tight-commas"),
                                                  (render::term(t, &Style { quote_atoms: true, ..CANON }), "quoted-atoms"), (format!("  {} ", c), "padded")];
@@ -212,6 +218,7 @@ impl ParserProp {
 
     fn roundtrip_goal(&self, g: &Goal, rep: &mut Report) -> CaseResult {
         let c = render::goal(g, &CANON);
+        if c.len() > TEXT_LIMIT { return CaseResult::Discard(TOO_LONG.into()); }
         let want = goal_to_engine(g, &Ids::Zero);
         let is_leaf = !matches!(g, Goal::And(_) | Goal::Or(_));
         let styles: Vec<(Style, &str)> = vec![(CANON, "canonical"), (Style { infix_compare: true, ..CANON }, "infix-compare"), (Style { infix_arith: true, infix_compare: true, ..CANON }, "infix-arith"),
@@ -242,6 +249,7 @@ impl ParserProp {
 
     fn roundtrip_clause(&self, cl: &Clause, rep: &mut Report) -> CaseResult {
         let c = render::clause(cl, &CANON);
+        if c.len() > TEXT_LIMIT { return CaseResult::Discard(TOO_LONG.into()); }
         let want_head = to_engine(&Term::Cmp(cl.name.clone(), cl.args.clone()), &Ids::Zero);
         let want_body = cl.body.as_ref().map(|b| goal_to_engine(b, &Ids::Zero)).unwrap_or(suiron::Goal::Nil);
         for (st, what) in [(CANON, "canonical"), (Style { bare_zero_arity: true, ..CANON }, "bare-zero-arity"), (Style { infix_compare: true, ..CANON }, "infix-compare")] {
@@ -310,6 +318,7 @@ impl ParserProp {
             1 => { rep.class("generated-number"); (numeric_text(s), true) }
             _ => (render::term(&c_term(s, 0), &CANON), false),
         };
+        if text.len() > TEXT_LIMIT { return CaseResult::Discard(TOO_LONG.into()); }
         let case = text.clone();
         type Getter = Box<dyn Fn(&str) -> Result<U, String>>;
         let arg0 = |g: suiron::Goal, i: usize| -> Result<U, String> {
@@ -488,6 +497,7 @@ impl ParserProp {
             if let Some(b) = &c.body { if !infix_arith_ok(b) && st.infix_arith { c.body = Some(Goal::Nl); } }
             rules.push(render::clause(&c, &st));
         }
+        if rules.iter().any(|r| r.len() > TEXT_LIMIT) { return CaseResult::Discard(TOO_LONG.into()); }
         // Sometimes the knowledge base is not empty when the file is loaded (rules added through the API before,
         // possibly for the same predicates), and sometimes the same file is loaded twice: loading must add the
         // file's rules, in order, after whatever is there - exactly what add_rules on the parsed rules does.
